@@ -7,7 +7,7 @@ import torch as tn
 import numpy as np
 import torchtt
 import datetime
-from torchtt._decomposition import QR, SVD, lr_orthogonal, rl_orthogonal, rank_chop
+from torchtt._decomposition import QR, SVD, lr_orthogonal, rl_orthogonal, rank_chop, _unit_cores, _scaled_guess
 from torchtt._iterative_solvers import BiCGSTAB_reset, gmres_restart
 import opt_einsum as oe
 from .errors import *
@@ -100,7 +100,12 @@ def amen_mv(A, b, nswp=22, x0=None, eps=1e-10, rmax=1024, kickrank=4, kick2=0, v
         # cores = torchttcpp.amen_solve(A_cores, B_cores, x_cores, b.N, A.R, b.R, x_R, nswp, eps, rmax, max_full, kickrank, kick2, local_iterations, resets, verbose, prec)
         # return torchtt.TT(list(cores))
     else:
-        return _amen_mm_python(A.cores, [c[:, :, None, :] for c in b.cores], A.M, [1]*len(A.M), A.N, False, nswp, x0.cores if x0 is not None else None, x0.R if x0 is not None else None, eps, rmax, kickrank, kick2, verbose)
+        # operands with cores of unit size (see _unit_cores); the factors are put back into the result
+        A_cores, fA = _unit_cores(A.cores)
+        b_cores, fb = _unit_cores(b.cores)
+        fx = [p * q for p, q in zip(fA, fb)]
+        x = _amen_mm_python(A_cores, [c[:, :, None, :] for c in b_cores], A.M, [1]*len(A.M), A.N, False, nswp, _scaled_guess(x0.cores, fx) if x0 is not None else None, x0.R if x0 is not None else None, eps, rmax, kickrank, kick2, verbose)
+        return torchtt.TT([c * f for c, f in zip(x.cores, fx)])
 
 
 def amen_mm(A, B, nswp=22, X0=None, eps=1e-10, rmax=1024, kickrank=4, kick2=0, verbose=False):
@@ -130,7 +135,12 @@ def amen_mm(A, B, nswp=22, X0=None, eps=1e-10, rmax=1024, kickrank=4, kick2=0, v
         raise ShapeMismatch('Dimension mismatch.')
     if X0 is not None and (not X0.is_ttm or X0.M != A.M or X0.N != B.N):
         raise ShapeMismatch('The initial guess must have the shape of the product.')
-    return _amen_mm_python(A.cores, B.cores, A.M, B.N, A.N, True, nswp, X0.cores if X0 is not None else None, X0.R if X0 is not None else None,   eps, rmax, kickrank, kick2, verbose)
+    # operands with cores of unit size (see _unit_cores); the factors are put back into the result
+    A_cores, fA = _unit_cores(A.cores)
+    B_cores, fB = _unit_cores(B.cores)
+    fX = [p * q for p, q in zip(fA, fB)]
+    X = _amen_mm_python(A_cores, B_cores, A.M, B.N, A.N, True, nswp, _scaled_guess(X0.cores, fX) if X0 is not None else None, X0.R if X0 is not None else None,   eps, rmax, kickrank, kick2, verbose)
+    return torchtt.TT([c * f for c, f in zip(X.cores, fX)])
 
 
 def _amen_mm_python(A_cores, B_cores, M, N, K, to_ttm, nswp=22, X0_cores=None, rx=None, eps=1e-10, rmax=1024, kickrank=4, kick2=0, verbose=False):
